@@ -34,6 +34,13 @@ Extractors are registered per property in EXTRACTORS below (properties without a
                                       constructors, find_all and Matches::next of ShiftAnd, KMP, Horspool, BNDM (search loops as
                                       functions on the explicit iterator state); Thm/GenSrc*Next.lean, restated in Thm/C08.lean
   C09 (genpm)    Gen/SrcHamming.lean  alignment::distance::hamming; Thm/GenSrcHamming.lean, restated in Thm/C09.lean
+  C20            Gen/SrcOrf.lean, SrcGc.lean, SrcAlphabet.lean     (dialect "cf", tools/rs2lean_cf.py)
+  C19            Gen/SrcQGrams.lean, SrcQGramIndex.lean
+  C07            Gen/SrcIit.lean
+                                      orf::Matches::next (+ its length test as a separate definition), gc::gcn_content,
+                                      Alphabet::{new,insert,is_word,max_symbol,len}, RankTransform::{new,get,transform},
+                                      qgram_push / QGrams::next / qgrams and the reverse trio, QGramIndex::with_max_count,
+                                      ArrayBackedIntervalTree::{index_core, find_into}; restated in Thm/C20|C19|C07.lean
 
 RbV/Thm/C01.lean and RbV/Thm/C02.lean import RbV.Thm.GenLimits / RbV.Thm.GenTbCodes and restate their theorems as
 property theorems, and the C01/C02 spec/reference files (`Spec/Align.lean` `minScore`, `Ref/Banded.lean` `maxCells`) are
@@ -886,6 +893,7 @@ GEN_SRC.update({n: gen_src(n) for n in ("SrcHamming",)})
 
 # genfm: the FM-index chain (C04/C05) — added separately so that concurrent edits of the line above merge trivially
 GEN_SRC.update({n: gen_src(n) for n in ("SrcOcc", "SrcLess", "SrcBackwardSearch", "SrcSampledGet")})
+GEN_SRC.update({n: gen_src(n) for n in ("SrcOrf", "SrcGc", "SrcAlphabet", "SrcQGrams", "SrcQGramIndex", "SrcIit")})       # dialect "cf" (tools/rs2lean_cf.py)
 
 
 # ------------------------------------------------------------------------------------------ theorem modules built here
@@ -923,7 +931,7 @@ def verify_modules(mods):
 
 
 EXTRACTORS = {
-    "C20": [gen_complement],
+    "C20": [gen_complement, GEN_SRC["SrcOrf"], GEN_SRC["SrcGc"], GEN_SRC["SrcAlphabet"]],
     "C17": [gen_dna2int],
     "C15": [gen_scales],
     # C01/C02: Thm/C01.lean and Thm/C02.lean import RbV.Thm.GenLimits / GenTbCodes and restate their theorems, and
@@ -938,6 +946,9 @@ EXTRACTORS = {
     # translated function bodies (tools/rs2lean.py); Thm/C08.lean imports RbV.Thm.GenSrc* and restates the theorems
     "C08": [GEN_SRC["SrcKmpLps"], GEN_SRC["SrcShiftAndMasks"], GEN_SRC["SrcHorspoolNew"]],
     "C18": [GEN_SRC["SrcFenwick"], GEN_SRC["SrcBitEnc"]],
+    # SrcAlphabet: Thm/C19.lean composes the q-gram iterator with the translated RankTransform::{new, get}
+    "C19": [GEN_SRC["SrcQGrams"], GEN_SRC["SrcQGramIndex"], GEN_SRC["SrcAlphabet"]],
+    "C07": [GEN_SRC["SrcIit"]],
 }
 # (genbits) additional units, appended so that concurrent edits of the table above merge trivially
 EXTRACTORS["C18"] = EXTRACTORS["C18"] + [GEN_SRC["SrcSmallInts"]]
